@@ -16,6 +16,13 @@ ENGINES_DOC = [
      "kind_free_text": "real ServerBuilder servers on loopback, raw-socket client with byte-level control, harness handlers writing an event log, offline history checkers"},
 ]
 
+def asan(prop, inner):
+    """E6: the quick-volume workload of `inner` repeated under an ASan build (thorough tier only)."""
+    return {"name": f"asan:{inner}", "kind": "cmd",
+            "cmd": ["python3", "{verif}/py/asan_engine.py", prop, inner, "quick", "{seed}", "{out}"],
+            "tiers": ("thorough",), "optional": True, "timeout_s": 4000}
+
+
 L_EXPL = "held on the executions explored: generated cases compared one by one with an independent reference model; no claim beyond the generated space"
 
 PROPS = {
@@ -77,6 +84,7 @@ PROPS = {
         "technique": "runtime monitoring: typed echo handlers on a real server + generated values x legal encodings x framings x pipelining, compared at the client boundary; event-log sweep for concurrency and exactly-one entry per request",
         "engines": [
             {"name": "c09-echo"},
+            asan("C09", "c09-echo"),
         ],
         "assumptions": ASSUME_COMMON,
     },
@@ -88,6 +96,7 @@ PROPS = {
         "technique": "runtime monitoring: invalid-by-construction requests against a real server, response status/format oracle plus event-log check that no handler entry exists for the request id",
         "engines": [
             {"name": "c10-invalid"},
+            asan("C10", "c10-invalid"),
         ],
         "assumptions": ASSUME_COMMON,
     },
@@ -99,6 +108,7 @@ PROPS = {
         "technique": "runtime monitoring: boundary-value body lengths x framings against real servers, response oracle + offline conservation check (max bytes seen by handler <= limit) over the event log",
         "engines": [
             {"name": "c11-limits"},
+            asan("C11", "c11-limits"),
         ],
         "assumptions": ASSUME_COMMON,
     },
@@ -110,6 +120,7 @@ PROPS = {
         "technique": "runtime monitoring with fault injection: exhaustive truncation + generated hostile traffic against real servers, strict response-grammar oracle, continuous health probes, panic monitor; ASan build in thorough",
         "engines": [
             {"name": "c18-hostile"},
+            asan("C18", "c18-hostile"),
         ],
         "assumptions": ASSUME_COMMON,
     },
